@@ -2,6 +2,7 @@ package checks
 
 import (
 	"bytes"
+	"crypto/sha256"
 	"encoding/hex"
 	"fmt"
 	"reflect"
@@ -97,6 +98,53 @@ func runC09(c *core.Ctx) {
 		for _, p := range ps {
 			jobs = append(jobs, job{s, p})
 		}
+	}
+	// length sweeps of the two derived strings: the printed sentence (HMAC key; every byte length that valid English
+	// sentences of 12..24 words reach among 40000 candidates per word count, in particular the lengths around the 128-byte
+	// block of HMAC-SHA512) and the salt "mnemonic"+passphrase (every passphrase length 0..300)
+	{
+		bip39.SetWordList("english")
+		type rep struct {
+			m bip39.Mnemonic
+			p string
+		}
+		var reps []rep
+		lengths := 0
+		for _, nb := range []int{16, 20, 24, 28, 32} {
+			seenLen := map[int]bool{}
+			for ctr := 0; ctr < 40000; ctr++ {
+				h := sha256.Sum256([]byte(fmt.Sprintf("sentence length sweep %d %d", nb, ctr)))
+				m, err := bip39.EntropyToMnemonic(h[:nb])
+				if err != nil {
+					break
+				}
+				if l := len(m.String()); !seenLen[l] {
+					seenLen[l] = true
+					reps = append(reps, rep{m, ""})
+				}
+			}
+			lengths += len(seenLen)
+		}
+		c.Set("sentence_byte_lengths_covered", int64(lengths))
+		fixed, _ := bip39.EntropyToMnemonic(bytes.Repeat([]byte{0x3c}, 16))
+		for l := 0; l <= 300; l++ {
+			reps = append(reps, rep{fixed, strings.Repeat("p", l)})
+		}
+		core.Par(len(reps), func(i int) {
+			r := reps[i]
+			var seed []byte
+			var err error
+			p := core.Catch(func() { seed, err = bip39.MnemonicToSeed(r.m, r.p) })
+			c.Eval(1)
+			nontriv.Add(1)
+			want, rerr := rb39.Seed(r.m, r.p)
+			if rerr != nil {
+				return
+			}
+			if p != nil || err != nil || !bytes.Equal(seed, want) {
+				c.Violate("C09/seed/length-sweep", fmt.Sprintf("%d-word sentence of %d bytes, passphrase of %d bytes: seed %x... (%v %v), PBKDF2 reference %x...", len(r.m), len(r.m.String()), len(r.p), seed[:min(8, len(seed))], p, err, want[:8]), map[string]interface{}{"sentence": r.m.String(), "passphrase_len": len(r.p)}, "", nil)
+			}
+		})
 	}
 	// every word of both lists once: a valid sentence that starts with word i, printed, parsed again (must be the same
 	// sentence) and turned into a seed (must succeed and equal the reference) - a table entry in another spelling than the
